@@ -14,6 +14,7 @@ export CARGO_TARGET_DIR=$WT/target
 FEAT=""
 grep -q "json_format\|toml_format" $DIR/seed_demo.rs && FEAT="--features json_format,toml_format"
 grep -qi "gzip\|zstd" $DIR/seed_demo.rs && FEAT="--features gzip,zstd"
+grep -q "background_rotation" $DIR/seed_demo.rs && FEAT="--features background_rotation"
 cp $DIR/seed_demo.rs tests/seed_demo.rs
 # demo without the change
 cargo test --offline $FEAT --test seed_demo >$DIR/demo_without.log 2>&1; DEMO_WITHOUT=$?
